@@ -450,7 +450,7 @@ func ruleStopOnce(c *chk.Ctx, owner string) {
 			c.Fail("RUN.stopOnce", s.fn, owner+" Close then clear", s.instr.Pos(), "a path from Close reaches %s without clearing %s: the next stop would close the channel again", where, chPath)
 		}
 	}
-	c.Floor("RUN.stopOnce", 4, "guard + clear for server and client")
+	c.Floor("RUN.stopOnce", 2, "guard + clear")
 }
 
 func ruleStartOnce(c *chk.Ctx) {
